@@ -462,7 +462,9 @@ impl Lock {
                 self.counts.push((kind, "eof"));
                 got.map(|_| ())
             }
-            (MRes::Internal, Err(e)) if err_class(e) == "internal" => {
+            // over-wide reads / malformed tables: the statement only requires that nothing is consumed,
+            // not a particular error value
+            (MRes::Internal, Err(_)) => {
                 self.counts.push((kind, "width-error"));
                 got.map(|_| ())
             }
